@@ -571,12 +571,17 @@ def st_For(ex, node, st):
             hs.assume(ex.eval_clause_assume(inv, hs))
         body_s = hs.fork().assume(i < view.len)
         if ex.feasible(body_s):
+            mark = len(body_s.trace)
+            body_s.trace.append(("loop-iter", idx))
             ex.bind_target(node.target, view.at(i), body_s)
             tv = body_s.env.get(node.target.id) if isinstance(node.target, ast.Name) else None
             if isinstance(tv, Val):
                 body_s.assume(*type_facts(tv, body_s))
             for s2, out in exec_block(ex, node.body, body_s):
                 if out.kind in (NORMAL, "continue"):
+                    for k, bt in enumerate(spec.get("body_trace", [])):
+                        ok = bt["check"](s2.trace[mark:], "iter", None, s2.env, ex, s2)
+                        ex.oblige(f"{lname}.body_trace{k}", "post", s2, ok if z3.is_expr(ok) else z3.BoolVal(bool(ok)), {"clause": bt["name"], "trace": [str(e[:2]) for e in s2.trace[mark:]][:30]})
                     s2.env["_i"] = IVal(i + 1)
                     s2.env["_seq"] = view
                     s2.env[f"_i{idx}"] = IVal(i + 1)
@@ -591,6 +596,7 @@ def st_For(ex, node, st):
         # 3. exhaustion
         end_s = hs.fork().assume(i == view.len)
         if ex.feasible(end_s):
+            end_s.trace.append(("loop-exhausted", idx))
             if node.orelse:
                 yield from exec_block(ex, node.orelse, end_s)
             else:
